@@ -245,6 +245,22 @@ example :
     (s.step (.setTyped 0 .src [1])).2 = true ∧ (s.step (.setTyped 0 .src [1])).1.children 0 = [1] := by
   decide
 
+-- (audit 2) the theorem APPLIED (the example above evaluates components by `decide`): `demoC11` is by definition a state
+-- reached by a history from `init`, the assignment `c0.children = [source 2, junk]` is refused after the unlinking, and the
+-- WHOLE forest — a record of functions, compared at every id — is the one before; likewise for `c1.collections = [c0]`
+example : (demoC11.step (.setChildren 0 [2, 900])).1 = demoC11 ∧ (demoC11.step (.setTyped 1 .coll [0])).1 = demoC11 :=
+  ⟨(setter_rejected_changes_nothing [.coll, .coll, .src, .sens]
+      [COp.base (.add 1 [3] false), COp.base (.add 0 [2, 1] false)] 0).1 [2, 900] (by decide),
+   (setter_rejected_changes_nothing [.coll, .coll, .src, .sens]
+      [COp.base (.add 1 [3] false), COp.base (.add 0 [2, 1] false)] 1).2.2 .coll [0] (by decide)⟩
+
+-- (audit 2) `all_views_are_preorder_filters` applied to the same history: `children_all` of collection 0 is duplicate-free,
+-- does not contain 0, and consists exactly of the objects that reach 0 through parent links
+example : (0 :: (demoC11.cnodes 0).tail).Nodup ∧ demoC11.flatAll (fun _ => true) demoC11.n 0 = (demoC11.cnodes 0).tail :=
+  have h := all_views_are_preorder_filters [.coll, .coll, .src, .sens]
+    [COp.base (.add 1 [3] false), COp.base (.add 0 [2, 1] false)] 0
+  ⟨h.2.2.2.2.1, h.1⟩
+
 /-- (added by the audit) `views_are_partitions` above only says "in at least one view" and "each view is a sublist";
 this is the full clause of the property: the stored `_sources` / `_sensors` / `_collections` ARE the ordered typed
 filters of `_children` (same order, same multiplicity), hence pairwise disjoint — every child appears in exactly
